@@ -435,25 +435,53 @@ def _roots(e, acc):
             _roots(x, acc)
 
 
-def _writes_through(body, bi, roots):
-    """Does block bi contain a store through, or a call that may mutate through, a root local?"""
+def _field_path(proj):
+    return tuple(e.get("name", str(e.get("f"))) for e in proj if isinstance(e, dict) and "f" in e)
+
+
+def _conflict(p, q):
+    n = min(len(p), len(q))
+    return p[:n] == q[:n]
+
+
+def _writes_through(body, bi, roots, read_paths=None):
+    """Does block bi contain a store through, or a call that may mutate through, a root local
+    (restricted to the field paths in `read_paths` when given: a write to `self.a` does not
+    disturb a value read from `self.b`)?"""
     blk = body.blocks[bi]
     aliases = _mut_aliases(body, roots)
+
+    def hits(path):
+        return read_paths is None or any(_conflict(path, q) for q in read_paths)
     for s in blk["stmts"]:
-        if s["k"] == "assign" and s["p"]["proj"] and (s["p"]["l"] in roots or s["p"]["l"] in aliases):
-            return True
+        if s["k"] == "assign" and s["p"]["proj"]:
+            l = s["p"]["l"]
+            if l in roots and hits(_field_path(s["p"]["proj"])):
+                return True
+            if l in aliases and hits(aliases[l] + _field_path(s["p"]["proj"])):
+                return True
     t = blk["term"]
     if t["k"] == "call":
         for a in t.get("args", []):
-            if a["k"] in ("copy", "move") and (a["p"]["l"] in roots or a["p"]["l"] in aliases) and body.local_ty(a["p"]["l"]).startswith("&mut"):
-                return True
+            if a["k"] in ("copy", "move") and body.local_ty(a["p"]["l"]).startswith("&mut"):
+                l = a["p"]["l"]
+                if l in roots and hits(()):
+                    return True
+                if l in aliases and hits(aliases[l]):
+                    return True
     return False
 
 
+_alias_cache = {}
+
+
 def _mut_aliases(body, roots):
-    """temporaries holding `&mut` reborrows of (parts of) the roots; creating one is not a write,
-    storing through it or passing it to a call is"""
-    out = set()
+    """{temporary: field path} for `&mut` reborrows of (parts of) the roots; creating one is not a
+    write, storing through it or passing it to a call is"""
+    key = (id(body), tuple(sorted(roots)))
+    if key in _alias_cache:
+        return _alias_cache[key]
+    out = {}
     changed = True
     while changed:
         changed = False
@@ -461,14 +489,49 @@ def _mut_aliases(body, roots):
             if s["k"] == "assign" and not s["p"]["proj"] and s["rv"]["k"] in ("ref", "rawptr") and s["rv"].get("mut"):
                 src = s["rv"]["p"]["l"]
                 if (src in roots or src in out) and s["p"]["l"] not in out:
-                    out.add(s["p"]["l"])
+                    out[s["p"]["l"]] = out.get(src, ()) + _field_path(s["rv"]["p"]["proj"])
                     changed = True
             if s["k"] == "assign" and not s["p"]["proj"] and s["rv"]["k"] == "use" and s["rv"]["op"].get("k") in ("copy", "move"):
                 src = s["rv"]["op"]["p"]["l"]
                 if src in out and not s["rv"]["op"]["p"]["proj"] and s["p"]["l"] not in out:
-                    out.add(s["p"]["l"])
+                    out[s["p"]["l"]] = out[src]
                     changed = True
+        # results of calls that take a &mut alias and return a &mut (index_mut, deref_mut, ...) alias the same path
+        for bi, t in body.terms("call"):
+            d = t.get("dest")
+            if d and not d["proj"] and body.local_ty(d["l"]).startswith("&mut") and d["l"] not in out:
+                for a in t.get("args", []):
+                    if a["k"] in ("copy", "move") and not a["p"]["proj"] and (a["p"]["l"] in out or a["p"]["l"] in roots):
+                        out[d["l"]] = out.get(a["p"]["l"], ())
+                        changed = True
+                        break
+    _alias_cache[key] = out
     return out
+
+
+def _read_paths(e, roots, acc, path=()):
+    """field paths (from a root reference) that an expression tree reads"""
+    if not isinstance(e, tuple) or not e:
+        return
+    if e[0] == "field":
+        _read_paths(e[1], roots, acc, (e[2],) + path)
+        return
+    if e[0] in ("arg", "local") and e[1] in roots:
+        acc.add(path)
+        return
+    if e[0] in ("deref", "ref", "downcast"):
+        _read_paths(e[1], roots, acc, path)
+        return
+    if e[0] == "var":
+        _read_paths(e[2], roots, acc, path)
+        return
+    for x in e[1:]:
+        if isinstance(x, tuple):
+            if x and isinstance(x[0], str):
+                _read_paths(x, roots, acc, ())
+            else:
+                for y in x:
+                    _read_paths(y, roots, acc, ())
 
 
 def dominating_conditions(body, site_block):
@@ -521,7 +584,9 @@ def dominating_conditions(body, site_block):
             mut_roots = set(r for r in roots if body.local_ty(r).startswith("&mut"))
             if mut_roots:
                 between = _blocks_between(body, tb, site_block)
-                if any(_writes_through(body, bb, mut_roots) for bb in between if bb != site_block):
+                rp = set()
+                _read_paths(ex, mut_roots, rp)
+                if any(_writes_through(body, bb, mut_roots, rp or None) for bb in between if bb != site_block):
                     continue
             out.append((ex, lo, hi))
     return out
